@@ -8,7 +8,7 @@ CONSTANTS
   UVals = {"p"}
   SKeys = {"s1"}
   CTypes = {"", "json"}
-  CDescs = {""}
+  CDescs = {"", "<e>"}
   IKeys = {"s1:10.0.0.1:80"}
   IWeights = {2, 3}
   CaKeys = {"c1"}
